@@ -112,8 +112,11 @@ End ==
 Reset ==
   /\ IsA("reset") /\ Adv
   /\ sess' = "up"
-  /\ pr' = [x \in Probes |-> [st |-> IF \E o \in Range(Ev.meta.init) : o.x = x /\ o.st = "alive" THEN "alive" ELSE "none", grp |-> FALSE]]
-  /\ px' = [d \in Dirs |-> [x \in Probes |-> IF \E o \in Range(Ev.meta.init) : o.x = x /\ o.st = "alive" THEN [NoPx EXCEPT !.st = "live"] ELSE NoPx]]
+  \* (a probe may already be in the group when the scenario proper starts: its proxies then are too)
+  /\ LET alive(x) == \E o \in Range(Ev.meta.init) : o.x = x /\ o.st = "alive"
+         ingrp(x) == \E o \in Range(Ev.meta.init) : o.x = x /\ o.st = "alive" /\ o.grp = 1
+     IN /\ pr' = [x \in Probes |-> [st |-> IF alive(x) THEN "alive" ELSE "none", grp |-> ingrp(x)]]
+        /\ px' = [d \in Dirs |-> [x \in Probes |-> IF alive(x) THEN [NoPx EXCEPT !.st = "live", !.grp = ingrp(x)] ELSE NoPx]]
   /\ inb' = [d \in Dirs |-> [x \in Probes |-> <<>>]]
   /\ fw' = [d \in Dirs |-> [x \in Probes |-> <<>>]]
   /\ rp' = [d \in Dirs |-> [x \in Probes |-> {}]]
